@@ -367,6 +367,9 @@ def run_p_case(c, res):
             B = w.add("B", mid_of(2), lat=nlat, lon=nlon, ports=(c["dport"],))
             B.router.gn_data_request_beacon()
             w.settle()
+            # ego PV of A is younger than what A knows about B (distinct timestamps in SO PV and DE PV)
+            w.clock.advance(2.0)      # whole seconds: sub-second TSTs hit the C08 purge defect, decided there
+            A.set_position(lat, lon, pai=bool(c["pai"]), s=c["s"], h=c["h"])
         except Exception as e:  # noqa
             res.violation(f"C02:setup-raises-{type(e).__name__}[{'negative-value' if min(lat, lon, c['s']) < 0 else 'non-negative'}]",
                           f"station setup / beacon exchange raised {e!r}", c)
